@@ -10,6 +10,7 @@ Types == {"folder", "file", "semlock"}
 BadBytes == "BADBYTES"
 MaxCount == 1000000
 FailModes == {FALSE, TRUE}
+StrictModes == {FALSE, TRUE}
 \* @type: Set(Seq(Str));
 Lines == { <<"REGISTER", "a", "file">>, <<"UNREGISTER", "a", "file">>, <<"MAYBE_UNLINK", "a", "file">>,
            <<"REGISTER", "b", "c", "folder">>, <<"UNREGISTER", "b", "c", "folder">>, <<"MAYBE_UNLINK", "b", "c", "folder">>,
@@ -30,6 +31,8 @@ VARIABLES
   bal,
   \* @type: Bool;
   fail,
+  \* @type: Bool;
+  strict,
   \* @type: Seq(Str);
   last
 
@@ -39,7 +42,7 @@ INSTANCE ResourceTracker
 IndInv == /\ DOMAIN reg = Keys /\ DOMAIN bal = Keys
           /\ \A k \in Keys : reg[k] >= 0 /\ reg[k] = bal[k]
 IndInit == /\ reg \in [Keys -> Nat] /\ bal = reg
-           /\ alive \in BOOLEAN /\ reported \in BOOLEAN /\ fail \in BOOLEAN
+           /\ alive \in BOOLEAN /\ reported \in BOOLEAN /\ fail \in BOOLEAN /\ strict \in BOOLEAN
            /\ cleaned = <<{}, {}>> /\ last = <<>>
 \* sanity of the method (expected to FAIL from IndInit): counts are really unbounded in this check
 SmallCounts == \A k \in Keys : reg[k] <= 5
